@@ -27,18 +27,51 @@ def value_has(v, pred):
     return False
 
 
-def numeric_equal_keys(v):
+def confusable(a, b):
+    """reason why the term order may say Equal for two distinct values: 'numeric' (integer/float keys that are
+    numerically equal, exactly or after the lossy conversion), 'listform' (proper list or nil against improper
+    list), found at aligned positions of equal-shaped containers; None otherwise; '' if identical"""
+    if a == b:
+        return ""
+    ka, kb = a[0], b[0]
+    if {ka, kb} <= {"int", "float"}:
+        try:
+            if etf.erl_cmp(a, b) == 0 or lossy_equal(a, b):
+                return "numeric"
+        except Exception:  # noqa
+            pass
+        return None
+    if ka in ("nil", "list") and kb in ("nil", "list"):
+        pa = ka == "nil" or a[2] == etf.NIL
+        pb = kb == "nil" or b[2] == etf.NIL
+        if pa != pb:
+            return "listform"
+        if ka == "list" and kb == "list" and len(a[1]) == len(b[1]):
+            return combine([confusable(x, y) for x, y in zip(a[1], b[1])] + [confusable(a[2], b[2])])
+        return None
+    if ka == kb == "tuple" and len(a[1]) == len(b[1]):
+        return combine([confusable(x, y) for x, y in zip(a[1], b[1])])
+    if ka == kb == "map" and len(a[1]) == len(b[1]):
+        return "numeric" if any(value_has(k, lambda x: x[0] in ("int", "float")) for k, _ in a[1]) else None
+    return None
+
+
+def combine(rs):
+    if any(r is None for r in rs):
+        return None
+    rs = [r for r in rs if r]
+    return rs[0] if rs else ""
+
+
+def key_collision(v, reason):
     if v[0] != "map":
         return False
     ks = [k for k, _ in v[1]]
-    for i in range(len(ks)):
-        for j in range(i + 1, len(ks)):
-            try:
-                if etf.erl_cmp(ks[i], ks[j]) == 0 or lossy_equal(ks[i], ks[j]):
-                    return True
-            except Exception:  # noqa
-                pass
-    return False
+    return any(confusable(ks[i], ks[j]) == reason for i in range(len(ks)) for j in range(i + 1, len(ks)))
+
+
+def numeric_equal_keys(v):
+    return key_collision(v, "numeric")
 
 
 def lossy_equal(a, b):
@@ -55,15 +88,7 @@ def lossy_equal(a, b):
 
 
 def list_vs_improper_keys(v):
-    if v[0] != "map":
-        return False
-    kinds = set()
-    for k, _ in v[1]:
-        if k[0] == "nil" or (k[0] == "list" and k[2] == etf.NIL):
-            kinds.add("proper")
-        elif k[0] == "list":
-            kinds.add("improper")
-    return len(kinds) == 2
+    return key_collision(v, "listform")
 
 
 def uses_tag(data, tagset):
@@ -124,6 +149,31 @@ def oracle_for(_d):
     return oracle
 
 
+def pair_maps(rng, limit):
+    """maps #{a => 1, b => 2} for pairs of distinct same-rank values from the ordering universe (every numeric
+    representation boundary, multiples by 256, binaries/bit-strings, lists/improper lists, identifiers): a decoder
+    whose key order wrongly says Equal drops an entry"""
+    import ordlib
+    leaves = [t for t in ordlib.numeric_leaves() + ordlib.other_leaves() + ordlib.containers([]) if not ordlib.noncanonical(t)]
+    extra = [termgen.int_ast(n) for n in (2**32, 2**40, 2**48, 2**64, 2**72, 2**80, -2**40, -2**48, 3 * 2**64, 3 * 2**72, 256**20, 256**21)]
+    vals = []
+    for t in leaves + extra:
+        try:
+            v = etf.denote(termgen.strip_loc(t))
+            if not etf.has_nan(v):
+                vals.append(v)
+        except Exception:  # noqa
+            pass
+    uniq = list(dict.fromkeys(vals))
+    pairs = [(a, b) for i, a in enumerate(uniq) for b in uniq[i + 1:] if etf.RANK[a[0]] == etf.RANK[b[0]] or {a[0], b[0]} <= {"nil", "list"}]
+    rng.shuffle(pairs)
+    out = []
+    for a, b in pairs[:limit]:
+        v = ("map", frozenset([(a, ("int", 1)), (b, ("int", 2))]))
+        out.append(termgen.encode_value(v, rng, canonical=True)[0])
+    return out
+
+
 def run(ctx):
     rng = ctx.rng
     datas = []
@@ -152,6 +202,7 @@ def run(ctx):
               bytes([131, 99]) + b"1.50000000000000000000e+00".ljust(31, b"\0"),
               bytes([131, 99]) + b"-3.14159265358979311600e+00".ljust(31, b"\0"),
               bytes([131, 110, 3, 0, 5, 0, 0]), bytes([131, 111, 0, 0, 0, 2, 1, 0, 1]), bytes([131, 98, 0, 0, 0, 7])]
+    datas += pair_maps(rng, ctx.budget(2500, 20000))
     pairs = bytesgen.valid_encodings(rng, ctx.budget(3500, 150000), canonical_share=0.15)
     for v, d in pairs:
         datas.append(d)
